@@ -1,6 +1,6 @@
 #!/usr/bin/env python3
 """Growth families: parts of the specification that cover behaviour outside the twenty listed properties.
-usage: bin/grow <family> [quick|thorough]          (families: G01 LiveType, G02 Collections, G03 Request, G04 ErrorObjects)
+usage: bin/grow <family> [quick|thorough]          (families: G01 LiveType, G02 Collections, G03 Request, G04 ErrorObjects, G05 MetaHolders)
 
 They are run with the same three uses of TLC as the property checks - (M) model checking, (A) generation of
 histories, (B) a monitor that judges what the real code did - but they decide no listed property: nothing here
@@ -265,12 +265,72 @@ def g04(tier, seed):
         scr.cleanup()
 
 
+def g05(tier, seed):
+    """Meta values of a document, a soft resource and a wrapped struct: a heap of shared maps; stateful monitor."""
+    t0 = time.time()
+    scr = V.Scratch("G05")
+    try:
+        drv = V.build_driver()
+        mcs = [V.model_check(scr, "MC_MetaHolders", "MC_MetaHolders.cfg")]
+        refuted = [expect_counterexample(scr, "MC_MetaHolders", "MC_MetaHolders_doc.cfg", "InvDocGetString"),
+                   expect_counterexample(scr, "MC_MetaHolders", "MC_MetaHolders_int.cfg", "InvIntReadable")]
+        gen = V.generate(scr, "MC_MetaHolders", "Gen_MetaHolders.cfg", "gen-0.out", seed=seed)
+        evdir = scr.sub("ev")
+        V.run_driver(drv, ["meta", "-gen", gen, "-out", evdir, "-seed", str(seed)] +
+                     V_t(tier, ["-walks", "500"], ["-walks", "20000", "-depth", "40"]))
+        os.remove(gen)
+        stats = json.load(open(os.path.join(evdir, "stats.json")))
+        need = ["Put:ok", "Del:ok", "Share:ok", "reset:ok"] + ["%s:%s:ok" % (o, h) for o, h in
+                (("Wire", "doc"), ("Wire", "soft"), ("Wire", "wrap"), ("Copy", "soft"), ("Copy", "wrap"))]
+        missing = [c for c in need if not stats["classes"].get(c)]
+        if missing:
+            raise V.Infra("vacuous run: never observed: %s" % missing)
+        results = V.validate(scr, "Trace_MetaHolders", "Trace_MetaHolders.cfg", evdir)
+        if sum(r["consumed"] for r in results) != stats["events"]:
+            raise V.Infra("monitor did not consume every event")
+        known = observations("G05")
+        hits, div = {}, []
+        for r in results:
+            for (l, fam, dev) in r["rejs"]:
+                if dev in known:
+                    hits[dev] = hits.get(dev, 0) + 1
+                else:
+                    div.append((r["chunk"], l, dev))
+        rc = 0
+        for dev, n in sorted(hits.items()):
+            V.log("OBSERVATION family=G05 %s: %s (%d calls)" % (dev, known[dev], n))
+        if div:
+            chunk, l, dev = div[0]
+            lines = open(chunk).read().splitlines()
+            start = max(i for i in range(l) if json.loads(lines[i])["ev"] == "reset")
+            hist = [json.loads(x) for x in lines[start:l]]
+            os.makedirs(os.path.join(V.out_root(), "replays"), exist_ok=True)
+            path = os.path.join(V.out_root(), "replays", "G05-divergence.json")
+            json.dump(dict(family="G05", deviation=dev, history=hist), open(path, "w"), indent=1)
+            V.log("DIVERGENCE family=G05 replay=%s" % path)
+            V.log("  %d recorded calls show something else than the model of meta values (first: line %d of %s)" % (
+                len(div), l, os.path.basename(chunk)))
+            rc = 1
+        ev = dict(family="G05", tier=tier, seed=seed, model_runs=mcs, refuted_as_expected=refuted,
+                  histories=stats["histories"], events_judged=stats["events"], outcome_classes=stats["classes"],
+                  exhaustive_over_emitted_histories=True, observations_hit=hits, divergences=len(div),
+                  wall_s=round(time.time() - t0, 1), cmd="bin/grow G05 %s" % tier)
+        if not os.environ.get("VERIF_REPO"):
+            json.dump(ev, open(os.path.join(V.VERIF, "growth", "G05.json"), "w"), indent=1)
+        if rc == 0:
+            V.log("OK family=G05 tier=%s model_states=%d histories=%d events=%d observations=%s wall=%.0fs" % (
+                tier, sum(m["states"] for m in mcs), stats["histories"], stats["events"], hits, time.time() - t0))
+        return rc
+    finally:
+        scr.cleanup()
+
+
 def V_t(tier, q, t):
     return q if tier == "quick" else t
 
 
 def main():
-    fams = dict(G01=g01, G02=g02, G03=g03, G04=g04)
+    fams = dict(G01=g01, G02=g02, G03=g03, G04=g04, G05=g05)
     if len(sys.argv) < 2 or sys.argv[1] not in fams:
         print(__doc__)
         return 2
